@@ -58,6 +58,11 @@ def conclude(pid, P, args, seed, results, wall, known, baseline):
             undecided.append("vacuity guard: the Verus canary's true postcondition was not discharged")
     # ---- per unit
     base_units = baseline.get(pid, {})
+    try:
+        opaque_base = json.load(open(f"{VERIF}/contracts/opaque_hashes.json"))
+    except (OSError, ValueError):
+        opaque_base = {}
+    opaque_now_all = {}
     total = 0
     discharged = 0
     held_bounded = 0
@@ -94,6 +99,18 @@ def conclude(pid, P, args, seed, results, wall, known, baseline):
             missing = sorted(set(exp) - set(r['obligations']))
             if missing and r['status'] != 'undecided':
                 undecided.append(f"{r['unit']}: obligations recorded in the baseline are no longer generated: {missing[:6]}")
+        # the text behind an opaque (R12) block carries an ASSUMED contract: if it changed since the baseline
+        # was recorded, the assumption has to be re-read by a person -> undecided, never an alarm
+        now_opaque = {}
+        for x in r.get('rewrites', []):
+            m_ = re.search(r"R12 opaque block '([^']*)': .*? sha=(\w+)", x)
+            if m_:
+                now_opaque[(x.split(':')[0].strip() + '/' + m_.group(1))] = m_.group(2)
+        opaque_now_all[r['unit']] = now_opaque
+        for name, sha in now_opaque.items():
+            old_sha = opaque_base.get(r['unit'], {}).get(name)
+            if old_sha and old_sha != sha and r['status'] != 'undecided':
+                undecided.append(f"{r['unit']}: the code behind opaque block {name} changed since the baseline (sha {old_sha} -> {sha}); its assumed contract must be reviewed")
         if r['status'] == 'undecided':
             undecided.append(f"{r['unit']}: " + '; '.join(r.get('notes', []))[:1500])
         for f in r['failures']:
@@ -230,6 +247,8 @@ def conclude(pid, P, args, seed, results, wall, known, baseline):
         os.makedirs(f"{VERIF}/contracts", exist_ok=True)
         baseline[pid] = {r['unit']: sorted(r['obligations']) for r in real}
         json.dump(baseline, open(f"{VERIF}/contracts/baseline_status.json", 'w'), indent=1, sort_keys=True)
+        opaque_base.update({u: h for u, h in opaque_now_all.items() if h})
+        json.dump(opaque_base, open(f"{VERIF}/contracts/opaque_hashes.json", 'w'), indent=1, sort_keys=True)
     print(f"{pid} [{tier}] obligations={total} discharged={discharged} bounded-held={held_bounded} "
           f"violations={vcount} known={len(seen)} undecided={len(undecided)} wall={wall:.1f}s -> exit {rc}")
     return rc
